@@ -91,7 +91,15 @@ def run(ctx):
         ubs.append(ub)
     with_int = t.flag(0.3, "integer_variable")
     normalize = t.flag(0.6, "normalize")
-    ds = DesignSpace()
+    # a ParameterSpace is a DesignSpace (deterministic variables here): the same contract holds on it
+    param_space = t.flag(0.2, "parameter_space")
+    if param_space:
+        from gemseo.algos.parameter_space import ParameterSpace
+
+        ds = ParameterSpace()
+        ctx.probe("problem_on_a_parameter_space")
+    else:
+        ds = DesignSpace()
     x0 = [min(max(0.5, lb if math.isfinite(lb) else -5), ub if math.isfinite(ub) else 5) for lb, ub in zip(lbs, ubs)]
     ds.add_variable("x", size=n_float, lower_bound=array(lbs), upper_bound=array(ubs), value=array(x0))
     if with_int:
@@ -138,7 +146,7 @@ def run(ctx):
     cfg = {"bounds": list(zip(map(str, lbs), map(str, ubs))), "integer": with_int, "normalize": normalize, "database": use_db, "store_jacobian": store_jac,
            "round_ints": round_ints, "user_derivatives": user_jac, "sparse": sparse, "linear": with_lin}
     ctx.event("cfg", canon(cfg))
-    sig = f"norm={int(normalize)} db={int(use_db)} round={int(round_ints)} int={int(with_int)} userjac={int(user_jac)}"
+    sig = f"norm={int(normalize)} db={int(use_db)} round={int(round_ints)} int={int(with_int)} userjac={int(user_jac)}" + (" ParameterSpace" if param_space else "")
     names = ["f", "g"] + (["lin"] if with_lin else [])
     cfg.update(maximize=maximize, constraint_positive=g_positive, constraint_value=g_offset)
     pfun = {"f": p.objective, "g": p.constraints[0]}
